@@ -253,16 +253,39 @@ fn snapshot_bytes(drv: Drv, s: u32, family: u8) -> Vec<u8> {
             v.resize(24, 0);
             v
         }
+        Drv::P9 if family == 1 => {
+            // tags of two-byte characters: a torn mix of two tags is not valid UTF-8
+            let tag = p9_utf8_tag(s);
+            let mut v = Vec::new();
+            v.extend_from_slice(&(tag.len() as u16).to_le_bytes());
+            v.extend_from_slice(tag.as_bytes());
+            v.resize(24, b'#');
+            v
+        }
         Drv::P9 => {
             let len = 3 + (s % 5) as u16;
             let ch = b'a' + (s % 26) as u8;
             let mut v = Vec::new();
             v.extend_from_slice(&len.to_le_bytes());
             v.extend(std::iter::repeat(ch).take(len as usize));
-            v.resize(16, b'#');
+            v.resize(24, b'#');
             v
         }
     }
+}
+
+/// Snapshot `s` of the 9P mount tag in the multi-byte family: an ASCII prefix of alternating
+/// length followed by two-byte characters, so that tags differ in where the character boundaries fall.
+fn p9_utf8_tag(s: u32) -> String {
+    let mut t = String::new();
+    for _ in 0..(s % 2) {
+        t.push('x');
+    }
+    let ch = char::from_u32(0xe0 + (s % 24)).unwrap();
+    for _ in 0..(2 + s % 4) {
+        t.push(ch);
+    }
+    t
 }
 
 #[derive(Clone, Debug, PartialEq, Eq)]
@@ -278,6 +301,7 @@ fn snapshot_val(drv: Drv, s: u32, family: u8) -> Val {
         Drv::Blk | Drv::Vsock => Val::U64(((if family == 1 { 7 + (s & 1) } else { s }) as u64) << 32 | s as u64),
         Drv::Console => Val::Pair(s as u16, s as u16),
         Drv::Net => Val::Mac([s as u8; 6]),
+        Drv::P9 if family == 1 => Val::Tag(p9_utf8_tag(s)),
         Drv::P9 => {
             let len = 3 + (s % 5) as usize;
             let ch = (b'a' + (s % 26) as u8) as char;
@@ -472,12 +496,15 @@ pub fn torn_items(drv: Drv, quick: bool) -> Vec<Item> {
         let base = baseline_accesses(drv, kind);
         for j in 0..base * 3 + 4 {
             items.push(Item::T(Torn { drv, kind, updates: vec![j], family: 0 }));
+            if matches!(drv, Drv::P9) {
+                items.push(Item::T(Torn { drv, kind, updates: vec![j], family: 1 }));
+            }
         }
         let lim2 = if quick { (base * 2 + 2).min(24) } else { (base * 3 + 4).min(60) };
         for j in 0..lim2 {
             for k in j + 1..lim2 {
                 items.push(Item::T(Torn { drv, kind, updates: vec![j, k], family: 0 }));
-                if matches!(drv, Drv::Blk | Drv::Vsock) {
+                if matches!(drv, Drv::Blk | Drv::Vsock | Drv::P9) {
                     items.push(Item::T(Torn { drv, kind, updates: vec![j, k], family: 1 }));
                 }
             }
@@ -524,13 +551,17 @@ pub fn run(ctx: &Ctx) -> Report {
             let lim = base * 3 + 4;
             for j in 0..lim {
                 items.push(Item::T(Torn { drv, kind, updates: vec![j], family: 0 }));
+                if matches!(drv, Drv::P9) {
+                    items.push(Item::T(Torn { drv, kind, updates: vec![j], family: 1 }));
+                    n_single += 1;
+                }
                 n_single += 1;
             }
             let lim2 = if ctx.quick() { (base * 2 + 2).min(40) } else { (base * 3 + 4).min(80) };
             for j in 0..lim2 {
                 for k in j + 1..lim2 {
                     items.push(Item::T(Torn { drv, kind, updates: vec![j, k], family: 0 }));
-                if matches!(drv, Drv::Blk | Drv::Vsock) {
+                if matches!(drv, Drv::Blk | Drv::Vsock | Drv::P9) {
                     items.push(Item::T(Torn { drv, kind, updates: vec![j, k], family: 1 }));
                 }
                     n_pairs += 1;
